@@ -3,7 +3,7 @@
    the outcome of any later transaction of the block nor the state the block commits (C06 at block level). *)
 From stdpp Require Import gmap.
 Require Import Model.Base Model.Ante Model.Validate Model.Current Model.State Model.Staking Model.Slashing Model.Poa Model.App.
-Require Import proofs.L1Basic.
+Require Import proofs.EvBasic proofs.L1Basic.
 Open Scope Z_scope.
 
 Definition lift (r : mres) (q : gmap Z Z) : mres := match r with MOk c => MOk (with_seqs c q) | MErr e => MErr e end.
@@ -209,11 +209,11 @@ Proof.
 Qed.
 
 (* ---- one block, with and without a failing transaction ---- *)
-Definition block_with (b : block) (txs : list (list l1msg)) : block := {| b_dt := b_dt b; b_absent := b_absent b; b_txs := txs |}.
+Definition block_with (b : block) (txs : list (list l1msg)) : block := {| b_dt := b_dt b; b_absent := b_absent b; b_evidence := b_evidence b; b_txs := txs |}.
 
 Theorem block_ignores_failing_tx w b txs1 tx txs2 :
   let c1 := match begin_block (with_clock (w_chain w) (height (w_chain w) + 1) (now (w_chain w) + b_dt b))
-                              (match c_prev (w_comet w) with Some vs => sorted_votes vs | None => [] end) (b_absent b) with inl c1 => c1 | inr _ => w_chain w end in
+                              (match c_prev (w_comet w) with Some vs => sorted_votes vs | None => [] end) (b_absent b) (b_evidence b) with inl c1 => c1 | inr _ => w_chain w end in
   (exists cf e, deliver_tx (fst (deliver_txs c1 txs1)) tx = (cf, TErr e)) ->
   let w1 := fst (run_block w (block_with b (txs1 ++ tx :: txs2))) in
   let w2 := fst (run_block w (block_with b (txs1 ++ txs2))) in
@@ -221,8 +221,8 @@ Theorem block_ignores_failing_tx w b txs1 tx txs2 :
   option_map bo_updates (snd (run_block w (block_with b (txs1 ++ tx :: txs2)))) = option_map bo_updates (snd (run_block w (block_with b (txs1 ++ txs2)))).
 Proof.
   intros c1 (cf & e & Hfail). unfold run_block. destruct (w_halted w) eqn:Hh; [cbn; rewrite Hh; repeat split; auto; apply sbs_refl|].
-  cbn [block_with b_dt b_absent b_txs].
-  destruct (begin_block _ _ (b_absent b)) as [cb|eb] eqn:Eb; [|cbn; repeat split; auto; apply sbs_refl].
+  cbn [block_with b_dt b_absent b_evidence b_txs].
+  destruct (begin_block _ _ (b_absent b) (b_evidence b)) as [cb|eb] eqn:Eb; [|cbn; repeat split; auto; apply sbs_refl].
   subst c1. destruct (failing_tx_is_invisible cb txs1 tx txs2 cf e Hfail) as [S O].
   destruct (deliver_txs cb (txs1 ++ tx :: txs2)) as [ca oa], (deliver_txs cb (txs1 ++ txs2)) as [cz oz]. cbn [fst snd] in S, O.
   destruct S as [q ->]. rewrite staking_end_block_seqs. destruct (staking_end_block cz) as [c3 upd|ee]; cbn [eb_seqs].
